@@ -3,6 +3,7 @@
 //! the stated bound, reports concrete failing inputs that replay on the real code, and is never counted as a proof.
 mod common;
 mod aiger;
+mod ctor;
 mod dimacs;
 mod fmt;
 mod mem;
@@ -45,6 +46,7 @@ fn main() {
             _ if suite == "scan" => scan::replay(prop, rest),
             _ if suite == "mem" => mem::replay(prop, rest),
             _ if suite == "renumber" => renum::replay(prop, rest),
+            _ if suite == "ctor" => ctor::replay(prop, rest),
             _ => {
                 println!("unknown suite {}", suite);
                 2
@@ -68,6 +70,7 @@ fn main() {
         _ if suite == "mem" => mem::suite(&prop, &tier, seed),
         _ if suite == "raw" => raw::suite(&prop, &tier, seed),
         _ if suite == "renumber" => renum::suite(&prop, &tier, seed),
+        _ if suite == "ctor" => ctor::suite(&prop, &tier, seed),
         _ => {
             eprintln!("unknown suite {}", suite);
             std::process::exit(2);
